@@ -57,6 +57,7 @@ SPECS = [
     {'name': 'Flags', 'type': 'BOOL', 'length': 5, 'address': [0x104, 2, 1]},
     {'name': 'Motor.Speed', 'type': 'LREAL', 'length': 2, 'address': None},
 ]
+SERVED_AFTER_UNREGISTER = []
 ADDR = {}       # name -> numeric address, filled per process by _addresses()
 ROUTE = [None]  # the route path this process' simulator is configured with (None: unconfigured, accepts any)
 TIMEOUT = 30.0
@@ -105,7 +106,8 @@ def bundle_member(draw):
 
 @st.composite
 def request(draw):
-    kind = draw(st.sampled_from(['op', 'op', 'op', 'op', 'bundle', 'gaa', 'list_services', 'list_identity', 'list_interfaces', 'legacy']))
+    kind = draw(st.sampled_from(['op', 'op', 'op', 'op', 'bundle', 'gaa', 'list_services', 'list_identity', 'list_interfaces', 'legacy',
+                                 'fwd_open', 'fwd_close']))
     r = {'kind': kind, 'context': draw(contexts)}
     if kind == 'op':
         r['op'] = draw(member_op())
@@ -113,6 +115,11 @@ def request(draw):
         r['ops'] = draw(st.lists(bundle_member(), min_size=1, max_size=8))
     elif kind == 'gaa':
         r['wrap'] = draw(st.booleans())
+    elif kind == 'fwd_open':
+        r['large'] = draw(st.booleans())
+        r['serial'] = draw(st.integers(1, 0xFFFF))
+    elif kind == 'fwd_close':
+        r['serial'] = draw(st.integers(1, 0xFFFF))
     return r
 
 
@@ -163,6 +170,20 @@ def _encode_request(r, handle):
     if k == 'gaa':
         msg = rc.req_get_attributes_all([{'class': 1}, {'instance': 1}])
         return rc.rr_frame(handle, rc.unconnected_send(msg, route_path=ROUTE[0]) if r.get('wrap') else msg, ctx), {'cmd': 0x6F, 'service': 0x81, 'ok': True}
+    if k == 'fwd_open':
+        # Connection Manager services: Forward Open (0x54) / Large Forward Open (0x5B) / Forward Close (0x4E), sent bare as clients do
+        large = bool(r.get('large'))
+        fo = {'priority': 0x0A, 'timeout_ticks': 0x0E, 'O_T_connection_ID': 0x20000002, 'T_O_connection_ID': 0x20000001,
+              'connection_serial': r.get('serial', 1), 'O_vendor': 0x1337, 'O_serial': 42, 'connection_timeout_multiplier': 3,
+              'O_T_RPI': 0x00201234, 'O_T_NCP': (0x42000000 | 4000) if large else (0x4200 | 500), 'T_O_RPI': 0x00204001,
+              'T_O_NCP': (0x42000000 | 4000) if large else (0x4200 | 500), 'transport_class_triggers': 0xA3,
+              'connection_path': [{'port': 1, 'link': 0}, {'class': 2}, {'instance': 1}]}
+        msg = rc.enc_forward_open(fo, large=large)
+        return rc.rr_frame(handle, msg, ctx), {'cmd': 0x6F, 'service': msg[0] | 0x80, 'ok': True}
+    if k == 'fwd_close':
+        msg = rc.enc_forward_close({'priority': 0x0A, 'timeout_ticks': 0x0E, 'connection_serial': r.get('serial', 1), 'O_vendor': 0x1337,
+                                    'O_serial': 42, 'connection_path': [{'port': 1, 'link': 0}, {'class': 2}, {'instance': 1}]})
+        return rc.rr_frame(handle, msg, ctx), {'cmd': 0x6F, 'service': msg[0] | 0x80, 'ok': True}
     if k in ('list_services', 'list_identity', 'list_interfaces', 'legacy'):
         return rc.encap(rc.CMD[k], handle, b'', ctx), {'cmd': rc.CMD[k], 'ok': True}
     if k == 'unregister':
@@ -292,6 +313,8 @@ def run_tcp(server, case):
                 # request that must be refused at encapsulation level was answered with status 0 (the session then stays open)
                 import time as _time
                 deadline = _time.time() + TIMEOUT
+                probed = False
+                del SERVED_AFTER_UNREGISTER[:]
                 total_expected = sum(1 for f, x in encoded if not x.get('none'))
                 while True:
                     fr, _rest = rc.split_frames(buf)
@@ -300,12 +323,26 @@ def run_tcp(server, case):
                         eof = True          # not judged: the violation is the zero status itself
                         break
                     remaining = deadline - _time.time()
+                    if (encoded[-1][1].get('none') and not probed and TIMEOUT - remaining > 3.0):
+                        # Unregister Session sent, all replies in, and the connection is still open after 3 s: positive test --
+                        # a further request on the same connection.  A reply to it shows the session was not ended.
+                        probed = True
+                        try:
+                            sock.sendall(rc.encap(rc.CMD['list_services'], handle, b'', b'C06probe'))
+                        except OSError:
+                            pass
+                    if probed and any(rc.dec_encap(f)['context'] == b'C06probe' for f in fr):
+                        SERVED_AFTER_UNREGISTER.append(True)
+                        eof = True
+                        break
                     if remaining <= 0:
                         raise common.HarnessError('server did not close the connection within %ss after the final frame' % TIMEOUT)
-                    sock.settimeout(remaining)
+                    sock.settimeout(min(remaining, 1.0) if encoded[-1][1].get('none') and not probed else remaining)
                     try:
                         chunk = sock.recv(65536)
                     except socket.timeout:
+                        if encoded[-1][1].get('none') and _time.time() < deadline:
+                            continue
                         raise common.HarnessError('server did not close the connection within %ss after the final frame' % TIMEOUT)
                     except (ConnectionResetError, BrokenPipeError):
                         chunk = b''
@@ -435,7 +472,12 @@ def pred(case, stats):
         stats.fail('sequence', 'tcp:server-thread-died', case, observed=repr(_SERVER[0].error), expected='server keeps running')
         return
     for transport, runner in (('tcp', lambda: run_tcp(_SERVER[0], case)), ('inproc', lambda: run_inproc(case))):
+        del SERVED_AFTER_UNREGISTER[:]
         res = runner()
+        if SERVED_AFTER_UNREGISTER:
+            stats.fail('sequence', 'tcp:session-served-after-unregister', case, observed='a request sent after Unregister Session on the same connection was answered',
+                       expected='Unregister Session returns nothing and ends the session')
+            res = (res[0], [f for f in res[1] if rc.dec_encap(f)['context'] != b'C06probe'], res[2], True, res[4], res[5])
         for sig, detail in judge_sequence(case, transport, *res):
             stats.fail('sequence', sig, case, observed=detail, expected='one decodable reply per request, in order, echoing context and session')
 
